@@ -48,6 +48,11 @@ theorem b_plus_unique (D : Int) (p b b' : Nat) (hp : p.Prime) (h : IsBPlus D p b
     (h' : IsBPlus D p b') : b = b' :=
   isBPlus_unique hp h h'
 
+/-- For an odd `p` and `0 < r < p`, exactly one of the two square roots `r`, `p - r` is odd (and
+exactly one is even): the parity requirement selects one of them. -/
+theorem parity_exactly_one (p r : Nat) (hodd : p % 2 = 1) (h0 : 0 < r) (hr : r < p) :
+    (r % 2 = 1 ∧ (p - r) % 2 = 0) ∨ (r % 2 = 0 ∧ (p - r) % 2 = 1) := by omega
+
 /-- `Prime::b_plus(false)` (odd discriminant `D ≡ 1 mod 4`, odd prime `p`, stored root `r < p` with
 `r² ≡ D mod p`, `r = 0` when `p ∣ D`): the code returns the normalised root — one of `r`, `p - r`,
 the one that is odd (`p` itself when `r = 0`). -/
